@@ -228,11 +228,13 @@ QUICK = [
     ('eliasfano', 'uint32_t', 8, 'double'),
     ('mapped', 'uint64_t', 32, 4, 'float'),
     ('mapped', 'int64_t', 8, 0, 'float'),
+    ('mapped', 'uint64_t', 2, 4, 'float'),      # an epsilon window that fits a cache line (arms of `if constexpr` keyed on a small Epsilon)
     ('mapped_mixed', 'int64_t', 'int32_t', 8, 0, 'float'),
     ('mapped_mixed', 'uint32_t', 'uint64_t', 32, 4, 'float'),
     ('multidim', 2, 'uint64_t', 16, 4, 'float'),
     ('multidim', 3, 'uint32_t', 8, 0, 'float'),
     ('multidim', 4, 'uint64_t', 32, 4, 'float'),
+    ('multidim', 2, 'uint64_t', 2, 4, 'float'),
     ('dynamic', 'uint32_t', 'uint32_t', 'pgm::PGMIndex<$K, 16>'),
     ('dynamic', 'uint64_t', 'uint64_t *', 'pgm::PGMIndex<$K, 8, 0>'),
     ('dynamic', 'uint32_t', 'std::string', 'pgm::PGMIndex<$K, 16>'),
